@@ -29,6 +29,10 @@ NOTES = [
     'patch that puts the chunks back is in notes/findings/c19_proposed_fixes_round2.diff (checked natively only).  '
     'CancelledError therefore has no clause on read/readuntil/readline/drain; set CHECK_CANCELLED_READ = True in '
     'contracts/c19.py to see the failing obligation read#post-raise(CancelledError).',
+    'SSHClientProcess.communicate (hence wait()/run()) is under contract for its prefix: after `_limit = 0` the '
+    'flow-control invariant must hold with the lifted limit when the call suspends in wait_closed(), i.e. reading is '
+    'resumed if only the old limit had paused it; wait_closed / collect_output are stubs (environment step / two '
+    'fresh strings), the exit-status ordering behind them is C07 + _flush_recv_buf (re-generated here).',
     'FIXED defects found by this sidecar: 12d9355 (collect_output releases the byte count), ab0120d (no empty chunk '
     'buffered: \'\' from a split multi-byte character made read() return \'\' without EOF), 99b1b3e (readuntil resumes '
     'reading after consuming data ahead of a marker), 7a31306 (collect_output empties the list in place: mixing it '
@@ -78,6 +82,10 @@ ASSUMPTIONS = [
     'write_exception / write_eof are taken not to re-enter the session',
     'cancellation is outside the claim: CancelledError has no clause (a cancelled read loses what it had already '
     'taken out of the buffer - see NOTES)',
+    'a compiled Pattern WITHOUT max_separator_len is under contract as an abstract pattern (Spec readuntil_pattern0: '
+    'conservation, accounting, blocking, and "with unknown separator length every search restarts from the beginning '
+    'of the unreturned data"; occ(b, pattern, j) is then an uninterpreted "matches at j", first-match clauses are not '
+    'stated for it).  Otherwise '
     'regex separators (compiled Pattern + max_separator_len) and lists of separators are delegated to `re`: they are '
     'exercised natively over all chunkings of all streams of <= 5 (thorough: 6) units (bounded stand-in, not a proof; '
     'a crash or hang of a case is a violation, a harness failure makes the check undecided); literal separators and '
@@ -834,6 +842,25 @@ NEWLINE_TAG = VTag('newline-sentinel')
 MSTART = z3.Function('rb_match_start', opaque_sort('Match'), IntS)
 
 
+MEND = z3.Function('rb_match_end', opaque_sort('Match'), IntS)
+PATSEP = z3.Const('rb_compiled_pattern', BytesS)       # token standing for "the compiled pattern" in occ(b, ., j)
+PATTERN_TAG = VTag('compiled-pattern')
+
+
+def pattern_isinstance_stub(cx):
+    """isinstance() when the separator is the compiled-pattern token: it is a typing.Pattern and nothing else"""
+    from pyvc import builtins_model as bm
+    v, cls = cx.args
+    if isinstance(v, VTag) and v.tag == 'compiled-pattern':
+        names = [c_.tag[6:] for c_ in (cls.items if isinstance(cls, VTuple) else [cls])]
+        return VBool('Pattern' in names)
+    (_s, r), = bm.b_isinstance(cx.ex, cx.st, cx.args, {}, cx.node)
+    return r
+
+
+pattern_isinstance_stub.modifies = ()
+
+
 def re_escape_stub(cx):
     return VTag('escaped-literal', payload=cx.args[0])
 
@@ -852,6 +879,19 @@ def search_stub(cx):
     """pat.search(buf, start) for a literal pattern: None iff the literal does not occur at any offset >= start,
     else the match object of the FIRST occurrence at an offset >= start (leftmost match semantics of re)"""
     pat = cx.recv
+    if isinstance(pat, VTag) and pat.tag == 'compiled-pattern':
+        # an arbitrary compiled pattern whose maximal match length is unknown (max_separator_len == 0): occ(b, PATSEP, j)
+        # stands for "the pattern matches in b starting at j"; no length, no stability under append is known, so
+        # the search must restart from the beginning of the not yet returned data
+        b, start = cx.args[0].z, cx.args[1].z
+        cx.require('with-unknown-separator-length-the-search-restarts-from-the-beginning', start == 0)
+        m = cx.fresh('opaque:Match', 'match')
+        k, e = MSTART(m.z), MEND(m.z)
+        j = z3.Int(fresh_name('occj'))
+        return [Out(ret=VNone, assume=[R.no_occ_from(b, PATSEP, start)]),
+                Out(ret=m, assume=[k >= start, k >= 0, R.occ(b, PATSEP, k), e >= k, e <= z3.Length(b),
+                                   z3.ForAll([j], z3.Implies(z3.And(j >= start, j < k),
+                                                             z3.Not(R.occ(b, PATSEP, j))))])]
     if not (isinstance(pat, VTag) and pat.tag == 'literal-pattern'):
         raise Unsupported('search on a non-literal pattern')
     sep, b, start = pat.payload.z, cx.args[0].z, cx.args[1].z
@@ -864,6 +904,8 @@ def search_stub(cx):
 
 
 def match_end_stub(cx):
+    if cx.st.env['pat'].tag == 'compiled-pattern':
+        return VInt(MEND(cx.recv.z))
     sep = cx.st.env['pat'].payload.z
     return VInt(MSTART(cx.recv.z) + z3.Length(sep))
 
@@ -921,7 +963,11 @@ def once_per_path(c, items):
 
 
 def make_readuntil(kind):
+    literal = kind != 'pattern0'
+
     def sep_of(c):
+        if kind == 'pattern0':
+            return PATSEP
         return VBytes(b'\n').z if kind == 'newline' else c.arg('separator')
 
     def inv(c):
@@ -934,7 +980,8 @@ def make_readuntil(kind):
             R.alldata(P), R.units(b) == R.flat(P), z3.Length(b) == R.dlen(P),
             (z3.Length(b) > 0) == (cur > 0),
             R.flat(Rb) == offered(c), z3.Not(c.new('ghost_gave_up')),
-            R.no_occ(b, sep_of(c)))                                    # no separator inside what was scanned
+            # no separator match inside what was scanned
+            R.no_occ(b, sep_of(c)) if literal else z3.Implies(cur > 0, R.no_occ(b, sep_of(c))))
 
     def head_terms(c):
         """(list, index, scanned data) at the head of the current inner-loop iteration.  Recorded in the state by the
@@ -966,7 +1013,8 @@ def make_readuntil(kind):
                R.ax_append(P, z3.Concat(z3.Unit(y), rest)), R.ax_cons2(y, rest), R.ax_append(P, z3.Unit(y)),
                R.ax_single(y), R.ax_alldata_append(P, z3.Unit(y)), R.ax_alldata_single(y),
                R.ax_units_split(b0, R.val_of(y)),
-               R.ax_occ_stable(b0, R.val_of(y), sep), R.ax_occ_bounds(b0, sep), R.ax_occ_bounds(full, sep),
+               ] + ([R.ax_occ_stable(b0, R.val_of(y), sep), R.ax_occ_bounds(b0, sep), R.ax_occ_bounds(full, sep)]
+                    if literal else [R.ax_occ_nonneg(full, sep)]) + [
                # proof script: the unit stream of the list, split at the current chunk
                Prove(z3.Implies(isdata, R.flat(Rb) == z3.Concat(R.flat(P), R.units(R.val_of(y)), R.flat(rest))),
                      'flat(list) == flat(scanned) ++ units(current) ++ flat(rest)'),
@@ -1001,7 +1049,7 @@ def make_readuntil(kind):
                     Prove(z3.Implies(z3.Length(rem) == 0, newR == rest), 'empty remainder removed'),
                     Prove(full == z3.Concat(res, rem), 'match prefix ++ remainder == scanned data'),
                     R.ax_cons2(R.mk_val(rem), rest), R.ax_units_split(res, rem),
-                    R.ax_occ_stable(res, rem, sep), R.ax_occ_bounds(res, sep),
+                    ] + ([R.ax_occ_stable(res, rem, sep), R.ax_occ_bounds(res, sep)] if literal else []) + [
                     Prove(R.units(full) == z3.Concat(R.units(res), R.units(rem)), 'units split at the match end'),
                     Prove(R.flat(newR) == z3.Concat(R.units(rem), R.flat(rest)), 'flat(new list) == units(remainder) ++ flat(rest)'),
                     Prove(R.dlen(newR) == z3.Length(rem) + R.dlen(rest), 'dlen(new list) == len(remainder) + dlen(rest)'),
@@ -1019,7 +1067,7 @@ def make_readuntil(kind):
             # supplied where the path ends, so that the feasibility checks along the path stay cheap
             head_terms(c)
             return [R.ax_empty(), R.ax_alldata_empty()] + \
-                ([R.ax_occ_bounds(R.EMPTYB, sep_of(c))] if isinstance(st.env['curbuf'], VInt) and
+                ([R.ax_occ_bounds(R.EMPTYB, sep_of(c))] if literal and isinstance(st.env['curbuf'], VInt) and
                  concrete_int(st.env['curbuf']) == 0 else [])
         return once_per_path(c, step_lemmas(c) + auto_lemmas(c, extra=[inv(c)] if c.has_local('curbuf') else []))
 
@@ -1028,15 +1076,16 @@ def make_readuntil(kind):
         k = z3.Length(r) - z3.Length(sep)
         sc = soft_case(c, B1, z3.Length(r))
         return [z3.Or(z3.Concat(R.units(r), R.flat(B1)) == offered(c), sc),   # the next units, nothing lost/skipped
-                z3.Or(R.occ(r, sep, k), sc),                                  # ... ending in a separator match
-                z3.Or(R.no_occ_before(r, sep, k), sc)]                        # ... which is the FIRST match
+                z3.Or(R.occ(r, sep, k), sc) if literal else z3.BoolVal(True),         # ... ending in a separator match
+                z3.Or(R.no_occ_before(r, sep, k), sc) if literal else z3.BoolVal(True)]   # ... the FIRST match
 
     def raise_incomplete(c):
         p, expected = c.result_v.args[0].z, c.result_v.args[1]
         B1, sep = buf(c), sep_of(c)
         marker_next = z3.And(z3.Length(B1) > 0, R.is_exc(B1[0]), z3.Length(p) >= 1)
         gave_up = c.new('ghost_gave_up')
-        return z3.And(expected is VNone, z3.Concat(R.units(p), R.flat(B1)) == offered(c), R.no_occ(p, sep),
+        return z3.And(expected is VNone, z3.Concat(R.units(p), R.flat(B1)) == offered(c),
+                      R.no_occ(p, sep) if literal else z3.Implies(z3.Length(p) > 0, R.no_occ(p, sep)),
                       accounted(c), R.ok(B1),
                       # only at EOF, with reading paused (buffer full, no separator in it), or before a marker
                       z3.Or(marker_next, gave_up))
@@ -1065,18 +1114,23 @@ def make_readuntil(kind):
     def setup(ex, st):
         if kind == 'newline':
             st.env['separator'] = NEWLINE_TAG
+        elif kind == 'pattern0':
+            st.env['separator'] = PATTERN_TAG
 
     sp = Spec(
         PROP, 'stream', 'SSHStreamSession.readuntil', self_class='SSHStreamSession',
-        params=params, classes=CLASSES, globals={'_NEWLINE': NEWLINE_TAG}, setup=setup,
+        params=params, classes=CLASSES, globals={'_NEWLINE': NEWLINE_TAG, 'Pattern': VTag('class:Pattern')},
+        setup=setup,
         stubs={'with self._read_locks[]': lock_step, 'self._maybe_resume_reading': ru_resume_stub,
+               **({'isinstance': pattern_isinstance_stub} if kind == 'pattern0' else {}),
                'self._block_read': block_stub('readuntil'), 'asyncio.IncompleteReadError': ire_stub,
                're.escape': re_escape_stub, 're.compile': re_compile_stub, 'pat.search': search_stub,
                'match.end': match_end_stub},
         loops={1: LoopSpec(header='True', modifies=list(ENV_FIELDS) + ['ghost_gave_up'], invariant=inv, lemmas=lemmas),
                2: LoopSpec(header='curbuf < len(recv_buf)', modifies=['_recv_buf'], invariant=inv, lemmas=lemmas,
                            variant=lambda c: z3.Length(c.local('recv_buf')) - c.local('curbuf'))},
-        requires=lambda c: z3.And(wf(c), view_is(c), flow_inv(c, False), z3.Not(c.old('ghost_gave_up'))),
+        requires=lambda c: z3.And(wf(c), view_is(c), flow_inv(c, False), z3.Not(c.old('ghost_gave_up')),
+                                  *([c.arg('max_separator_len') == 0] if kind == 'pattern0' else [])),
         lemmas=out_lemmas, returns='bytes', modifies=list(ENV_FIELDS) + ['ghost_base', 'ghost_gave_up'],
         ensures=[('delivers-the-next-units-in-order-nothing-lost', lambda c: post_return(c)[0]),
                  ('result-ends-with-a-separator-match', lambda c: post_return(c)[1]),
@@ -1099,6 +1153,9 @@ def make_readuntil(kind):
 
 readuntil_literal = make_readuntil('literal')
 readuntil_newline = make_readuntil('newline')
+# a compiled pattern WITHOUT max_separator_len: conservation / accounting / blocking clauses, and the search-start
+# clause "with unknown separator length the search restarts from the beginning of the unreturned data"
+readuntil_pattern0 = make_readuntil('pattern0')
 
 
 # ================================================================== writers of the receive buffer / EOF / close
@@ -1745,7 +1802,7 @@ def register_reader_contracts_under(prop):
     Call it at the very END of the other sidecar (this module imports contracts.c07 at its own end)."""
     import copy
     out = []
-    for sp in (read, readuntil_literal, readuntil_newline, readline):
+    for sp in (read, readuntil_literal, readuntil_newline, readuntil_pattern0, readline):
         cp = copy.copy(sp)
         cp.prop = prop
         Spec.registry.append(cp)
